@@ -58,6 +58,15 @@ def config_histories(tier, rng):
                 hs.append({"base": 0, "cfg": dict(muxgen.DEFAULT_CFG, timescale=mts, brands=[] if kind == "ttxt" else muxgen.DEFAULT_CFG["brands"]),
                            "ops": [{"add": muxgen.tc(kind, ts=tts)}, {"w": [1, first, 0, True, "aa"]}, {"w": [1, last, 0, False, "bb"]}]})
     hs.append({"base": 0, "cfg": {"major": muxgen.fourcc("isom"), "minor": 0, "brands": [], "timescale": 1000}, "ops": [{"add": muxgen.tc("avc")}] + samples})
+    # several tracks whose durations cross 2^32 movie ticks in different positions of the track list; repeated brands
+    for order in ((5000000, 10), (10, 5000000), (10, 5000000, 20), (5000000, 4999999)):
+        ops = [{"add": muxgen.tc("ttxt", ts=1)} for _ in order]
+        for ti, d in enumerate(order):
+            ops.append({"w": [ti + 1, d, 0, True, "aa"]})
+        hs.append({"base": 0, "cfg": dict(muxgen.DEFAULT_CFG, timescale=1000), "ops": ops})
+    isom, iso2, mp41 = muxgen.fourcc("isom"), muxgen.fourcc("iso2"), muxgen.fourcc("mp41")
+    for brands in ([isom, iso2, isom, mp41], [isom, isom], [iso2, mp41, mp41, iso2, iso2]):
+        hs.append({"base": 0, "cfg": {"major": isom, "minor": 512, "brands": brands, "timescale": 1000}, "ops": [{"add": muxgen.tc("avc")}] + samples})
     # several tracks: the movie duration is the longest
     for _ in range(40 if tier == "quick" else 400):
         hs.append(muxgen.random_history(rng, bad=0.0, max_samples=40))
